@@ -491,7 +491,7 @@ func (c *Ctx) builtin(name string, cc *ssa.CallCommon, args []*Val, rt types.Typ
 	case "append":
 		return c.appendBuiltin(cc, args, rt, st)
 	case "panic":
-		if c.con.Sweep || sweepAll {
+		if (c.con.Sweep && len(c.con.SweepKinds) == 0) || sweepAll {
 			c.addObl("S", c.fnName()+".panic.unreachable", "false", "explicit panic")
 		}
 		c.curReach = "false"
